@@ -5,6 +5,7 @@
       V3 … tagV tagP tagX   → `<V> <P> <X>`     value tag, prop shorthand, prefix tag on the same configuration
       E  … tag              → `<V>`             one value tag (expressions, validation)
       Q  … tag              → `<V>`             one prefix tag
+    the kind may carry harness flags after a `+` (`V3+p`, `E+d`, …), ignored here
     type     S I J U D B A | P<ty> | L<ty> | M<ty> | T(hexname:ty:hexvalidate,…)
     value    z | s<hex> | i<dec> | F<dec> | f<decimal> | b0 | b1 | l(v,…) | m(hexkey=v,…)
     evals    e(hexexpr=value|!,…)       the expression engine as a table (anything else: `unmodelled`)
@@ -178,6 +179,9 @@ def handle (line : String) : String :=
     | some (ty, []), some (cfgV, []), some evs, some vds, some tagBs =>
       let cfg := mkCfg cfgV
       let ev := mkEval evs
+      -- `V3+pd`: the flags after `+` (fields pre-filled with defaults, an extra component field on the holder)
+      -- are for the harness; what is bound does not depend on them
+      let kind := (kind.splitOn "+").headD kind
       match kind, tagBs with
       | "V3", [tv, tp, tx] =>
         let p := match Tag.propShorthand? tp with
